@@ -46,3 +46,6 @@ Gen/Sites.vos Gen/Sites.vok Gen/Sites.required_vos: Gen/Sites.v
 Log/LogModel.vo Log/LogModel.glob Log/LogModel.v.beautified Log/LogModel.required_vo: Log/LogModel.v Gen/Sites.vo
 Log/LogModel.vio: Log/LogModel.v Gen/Sites.vio
 Log/LogModel.vos Log/LogModel.vok Log/LogModel.required_vos: Log/LogModel.v Gen/Sites.vos
+Float/Conv.vo Float/Conv.glob Float/Conv.v.beautified Float/Conv.required_vo: Float/Conv.v 
+Float/Conv.vio: Float/Conv.v 
+Float/Conv.vos Float/Conv.vok Float/Conv.required_vos: Float/Conv.v 
